@@ -260,16 +260,48 @@ def consume_once(repo, res, canon, rule):
             continue
         ok = True
         witness_p = None
+        from .common import reaching_value
+        n_copy = 0
         for p in cached_paths(col):
-            reads = [i for i, e in enumerate(p.events) if e.kind == 'stmt' and any(
-                isinstance(x, (ast.Attribute, ast.Subscript)) and isinstance(x.ctx, ast.Load)
-                and canon.c(x, fr) == L for x in ast.walk(e.node))]
-            if not reads:
+            # statements that copy the content of L into the monitor's log on this path
+            copies = []
+            for i, e in enumerate(p.events):
+                if e.kind != 'stmt' or not isinstance(e.node, ast.Assign):
+                    continue
+                if not any(canon.c(t, fr) == 'Monitor.events' for t in e.node.targets):
+                    continue
+                flows = False
+                for x in ast.walk(e.node.value):
+                    if isinstance(x, (ast.Attribute, ast.Subscript)) and canon.c(x, fr) == L:
+                        flows = True
+                    elif isinstance(x, ast.Name):
+                        seen_names = set()
+                        work = [x.id]
+                        while work and not flows:
+                            nm = work.pop()
+                            if nm in seen_names:
+                                continue
+                            seen_names.add(nm)
+                            rv = reaching_value(p, i, nm)
+                            if rv is None:
+                                continue
+                            for y in ast.walk(rv):
+                                if isinstance(y, (ast.Attribute, ast.Subscript)) and canon.c(y, fr) == L:
+                                    flows = True
+                                elif isinstance(y, ast.Name):
+                                    work.append(y.id)
+                if flows:
+                    copies.append(i)
+            if not copies:
                 continue
+            n_copy += 1
             cl = [i for i, e in enumerate(p.events) if any(e.node is n or (
                 e.kind == 'stmt' and any(x is n for x in ast.walk(e.node))) for n in clears)]
-            if not cl or max(cl) < max(reads):
+            if not cl or max(cl) < max(copies):
                 ok, witness_p = False, p
+        if ok and not n_copy:
+            ok = False
+            witness_p = None
         if ok:
             res.ok(rule, col, clears[0] if clears else col.node, what)
         else:
